@@ -66,7 +66,7 @@ def controlled_run(offsets, fails, threads, choose, max_steps=2000):
     try:
         lc.Queue = lambda *a, **k: SC.SQueue(S)
         lc.SimpleQueue = lambda *a, **k: SC.SSimpleQueue(S)
-        lc.requests_retry_session = lambda *a, **k: Sess(bytes(data), fails, S)
+        lc.requests_retry_session = lambda *a, **k: Sess(bytes(data), fails, S, fail_kind=lambda off: "protocol" if (off // 50) % 2 else "http")
         lc.HttpFetcherThread.start, lc.HttpFetcherThread.run, lc.HttpFetcherThread.join = start, run, join
         source = lc.HttpRangeStream("http://verif.invalid/file.copc.laz")
 
@@ -212,6 +212,16 @@ def run(ck):
         saved_init(self, *a, **k)
         self.daemon = True          # harness only: a leaked worker must not hang the interpreter at exit
     lc.HttpFetcherThread.__init__ = daemon_init
+    saved_seek = lc.HttpRangeStream.seek
+    main_ident = threading.get_ident()
+
+    def slow_seek(self, pos, whence=io.SEEK_SET):
+        # schedule perturbation only: a worker is preempted between its seek() and its read()
+        r = saved_seek(self, pos, whence)
+        if threading.get_ident() != main_ident and hasattr(self, "_verif_jitter"):
+            time.sleep(self._verif_jitter * ((pos % 7) + 1))
+        return r
+    lc.HttpRangeStream.seek = slow_seek
     hung = False
     try:
         for qi in range(nq):
@@ -242,9 +252,11 @@ def run(ck):
             ck.count("strategy:" + strategy)
             hi = max([c[0] for c in captured] + [1])
             lc.requests_retry_session = lambda *a, _d=data, _f=fails, _hi=hi, **k: SC.FakeSession(
-                _d, _f, delay=lambda off, _hi=_hi: time.sleep(max(0.0, 0.002 * (1.0 - off / (_hi + 1.0)))))
+                _d, _f, delay=lambda off, _hi=_hi: time.sleep(max(0.0, 0.002 * (1.0 - off / (_hi + 1.0)))),
+                fail_kind=lambda off: "protocol" if off % 2 else "http")
             before = {th.ident for th in threading.enumerate()}
             rd = CopcReader(lc.HttpRangeStream("http://verif.invalid/f.copc.laz"), http_num_threads=workers, _http_strategy=strategy)
+            lc.HttpRangeStream._verif_jitter = 0.0008 if qi % 2 else 0.0
             box_ = {}
 
             def do_query():
@@ -277,6 +289,7 @@ def run(ck):
     finally:
         lc.requests_retry_session = saved_session
         lc.HttpFetcherThread.__init__ = saved_init
+        lc.HttpRangeStream.seek = saved_seek
     # ------------------------------------------------------------------ model vs implementation
     out = ck.driver(lines)
     bad = None
